@@ -35,7 +35,9 @@ Bases(k, s) == LET SL == Slots(k, s) IN
   ELSE {BuildFrom(SL, 1, <<>>, <<>>)}
 
 WsGaps == <<"  ", "\t", "\n", "\r\n", "\r", " \n\t ">>
-CommentGaps == <<" /* c */ ", " -- c\n", "\n/* multi\nline */\n", " /**/ ", " /* a */ /* b */ -- c\n ", " -- c\r", " -- c\r\n", "\t--\n">>
+CommentGaps == <<" /* c */ ", " -- c\n", "\n/* multi\nline */\n", " /**/ ", " /* a */ /* b */ -- c\n ", " -- c\r", " -- c\r\n", "\t--\n",
+                \* comment bodies that begin / end with the characters of the delimiters
+                " /*/ c */ ", " /*// c */ ", " /***/ ", " /* * / */ ", " /*/*/ ", " --\n", " ---- c --\n">>
 GapVariants == IF WithComments THEN WsGaps \o CommentGaps ELSE WsGaps
 
 \* a gap accepts whitespace when the grammar marks it loose, and also - although written without
